@@ -10,7 +10,9 @@ REPLAY = os.path.join(VERIF, 'replay')
 # batteries per property: list of argv lists (cheap first)
 BATTERIES = {
     'C17': [['arena', '5']],
-    'C16': [['visit'], ['visit-cf', '4', '3']],
+    'C04': [['entities']],
+    'C19': [['entities']],
+    'C16': [['visit'], ['visit-cf', '4', '3'], ['visit-deep', '100000']],
     'C03': [['op'], ['cf', '4', '3'], ['cf', '5', '2']],
     'C01': [['op'], ['cf', '4', '3']],
     'C15': [['cf', '4', '3']],
@@ -46,6 +48,9 @@ def run_one(binary, argv, timeout=900):
         out = json.loads(p.stdout.strip().split('\n')[-1])
     except Exception:
         out = {'raw': p.stdout[-2000:], 'stderr': p.stderr[-2000:]}
+    if p.returncode not in (0, 1, 2) and 'overflowed its stack' in (p.stderr or ''):
+        # a traversal that exhausts a 2 MiB stack aborts the process: that is the observation
+        return 1, {'violated': True, 'failures': [{'what': 'stack overflow (call-stack use grows with nesting depth)', 'stderr': p.stderr[-400:], 'argv': argv}]}
     return p.returncode, out
 
 
